@@ -8,6 +8,8 @@ package main
 import (
 	"fmt"
 	"strings"
+
+	"golang.org/x/tools/go/ssa"
 )
 
 type thread struct {
@@ -17,7 +19,10 @@ type thread struct {
 	exited chan struct{}
 	done   bool
 	ready  func() bool // nil: runnable
+	what   string
+	where  string
 	main   bool
+	eager  bool
 	started bool
 }
 
@@ -41,6 +46,24 @@ func (it *Interp) initThreads() {
 func (it *Interp) spawnThread(fnv Value, args []Value, label string) {
 	ts := it.ts
 	t := &thread{id: len(ts.threads), label: label, wake: make(chan struct{}, 1), exited: make(chan struct{})}
+	if len(it.job.EagerCalls) > 0 {
+		var gfn *ssa.Function
+		switch f := fnv.(type) {
+		case *ssa.Function:
+			gfn = f
+		case *Closure:
+			if f != nil {
+				gfn = f.fn
+			}
+		}
+		if gfn != nil {
+			for _, cn := range it.job.EagerCalls {
+				if callsNamed(gfn, cn) {
+					t.eager = true
+				}
+			}
+		}
+	}
 	ts.threads = append(ts.threads, t)
 	go func() {
 		defer close(t.exited)
@@ -89,6 +112,13 @@ func (it *Interp) pick(cands []*thread, what string) *thread {
 	if len(cands) == 1 {
 		return cands[0]
 	}
+	// partial-order reduction: threads declared independent (their steps commute with everyone
+	// else's) run as soon as they can, without forking the schedule
+	for _, t := range cands {
+		if t.eager {
+			return t
+		}
+	}
 	if it.job.CanonicalBlock && !strings.HasPrefix(what, "preempt") {
 		// canonical non-preemptive schedule: the runnable thread created first continues
 		return cands[0]
@@ -110,11 +140,12 @@ func (it *Interp) block(ready func() bool, what string) {
 	ts := it.ts
 	cur := ts.cur
 	cur.ready = ready
+	cur.what, cur.where = what, it.site()
 	for {
 		run := ts.runnable(nil)
 		if len(run) == 0 {
 			// global deadlock
-			msg := fmt.Sprintf("all goroutines blocked (%s at %s)", what, it.site())
+			msg := fmt.Sprintf("all goroutines blocked (%s at %s) %s", what, it.site(), ts.describe())
 			if cur.main {
 				cur.ready = nil
 				panic(pathEnd{"blocked", msg})
@@ -176,7 +207,7 @@ func (it *Interp) passBatonFromDead() {
 	run := ts.runnable(nil)
 	if len(run) == 0 {
 		if ts.abort == nil {
-			ts.abort = pathEnd{"blocked", "all goroutines blocked after a goroutine finished at " + it.site()}
+			ts.abort = pathEnd{"blocked", "all goroutines blocked after a goroutine finished at " + it.site() + " " + ts.describe()}
 		}
 		ts.cur = ts.threads[0]
 		ts.threads[0].wake <- struct{}{}
@@ -221,4 +252,16 @@ func (it *Interp) killThreads() {
 		t.wake <- struct{}{}
 		<-t.exited
 	}
+}
+
+
+func (ts *threadSys) describe() string {
+	s := "{"
+	for _, t := range ts.threads {
+		if t.done {
+			continue
+		}
+		s += fmt.Sprintf("%s:%s@%s; ", t.label, t.what, t.where)
+	}
+	return s + "}"
 }
